@@ -32,7 +32,7 @@ def cases(draw):
     kind = draw(st.sampled_from(["interstitial", "vacancy"]))
     if kind == "vacancy":
         setup = draw(vs.setups(nthermo=(1,), originstates="no" if EXCLUDE_R11 else "any", max_jumps=30))
-        rec, chem, k = setup["recipe"], 0, setup["k"]
+        rec, chem, k = setup["recipe"], setup["chem"], setup["k"]
     else:
         rec = draw(cs.recipes(max_mobile=4, max_other=3, names=["FCC", "BCC", "HCP", "B2", "omega", "honeycomb", "HCPoct", "FCCoct", "rect2", "tetP2", "square", "tria", "diamond"]))
         crysA = cs.build(rec)
